@@ -26,18 +26,18 @@ impl Fam {
 }
 
 const FAMS: &[Fam] = &[
-    Fam { key: "int:5", ty: "'int", exprs: &["5", "[2, 3] __integer_add__", "[10, 2] __integer_divide__"], tuple: false, module_field: Some("i") },
+    Fam { key: "int:5", ty: "'int", exprs: &["5", "[2, 3] __integer_add__", "[10, 2] __integer_divide__", "5 idg", "[5, 3] fst"], tuple: false, module_field: Some("i") },
     Fam { key: "int:6", ty: "'int", exprs: &["6", "[2, 4] __integer_add__"], tuple: false, module_field: None },
     Fam { key: "int:big", ty: "'int", exprs: &["99999999999999999999", "[99999999999999999998, 1] __integer_add__"], tuple: false, module_field: None },
-    Fam { key: "bin:0102", ty: "'bin", exprs: &["0x0102", "[0x01, 0x02] __binary_concat__", "[0x010203, 0, 2] __binary_slice__"], tuple: false, module_field: Some("b") },
+    Fam { key: "bin:0102", ty: "'bin", exprs: &["0x0102", "[0x01, 0x02] __binary_concat__", "[0x010203, 0, 2] __binary_slice__", "[[0x01, 0x02] __binary_concat__, 3] fst"], tuple: false, module_field: Some("b") },
     Fam { key: "bin:0103", ty: "'bin", exprs: &["0x0103", "[0x01, 0x03] __binary_concat__"], tuple: false, module_field: None },
     Fam { key: "bin:empty", ty: "'bin", exprs: &["0x", "[0x01, 0, 0] __binary_slice__"], tuple: false, module_field: None },
-    Fam { key: "P{x:1,y:0102}", ty: "P[x: 'int, y: 'bin]", exprs: &["P[x: 1, y: 0x0102]", "P[x: [0, 1] __integer_add__, y: [0x01, 0x02] __binary_concat__]", "P[x: 1 wd, y: 0x0102]"], tuple: true, module_field: Some("p") },
+    Fam { key: "P{x:1,y:0102}", ty: "P[x: 'int, y: 'bin]", exprs: &["P[x: 1, y: 0x0102]", "P[x: [0, 1] __integer_add__, y: [0x01, 0x02] __binary_concat__]", "P[x: 1 wd, y: 0x0102]", "P[x: 9, y: 0x0102] ~[..., x: 1]", "[x: 1] P[..., y: 0x0102]", "P[x: 1, y: 0x0102] idg", "[P[x: 1, y: [0x01, 0x02] __binary_concat__], 3] fst"], tuple: true, module_field: Some("p") },
     Fam { key: "P{x:2,y:0102}", ty: "P[x: 'int, y: 'bin]", exprs: &["P[x: 2, y: 0x0102]", "P[x: [1, 1] __integer_add__, y: 0x0102]", "P[x: 2 wd, y: 0x0102]"], tuple: true, module_field: None },
     Fam { key: "Q{x:1,y:0102}", ty: "Q[x: 'int, y: 'bin]", exprs: &["Q[x: 1, y: 0x0102]", "Q[x: 1, y: [0x01, 0x02] __binary_concat__]", "Q[x: 1 wd, y: 0x0102]"], tuple: true, module_field: None },
-    Fam { key: "{x:1,y:0102}", ty: "[x: 'int, y: 'bin]", exprs: &["[x: 1, y: 0x0102]", "[x: [0, 1] __integer_add__, y: [0x01, 0x02] __binary_concat__]", "[x: 1 wd, y: 0x0102]"], tuple: true, module_field: Some("u") },
+    Fam { key: "{x:1,y:0102}", ty: "[x: 'int, y: 'bin]", exprs: &["[x: 1, y: 0x0102]", "[x: [0, 1] __integer_add__, y: [0x01, 0x02] __binary_concat__]", "[x: 1 wd, y: 0x0102]", "P[x: 1, y: 0x0102] [...]", "[x: 1, y: 0x0102] idg"], tuple: true, module_field: Some("u") },
     Fam { key: "{a:1,b:0102}", ty: "[a: 'int, b: 'bin]", exprs: &["[a: 1, b: 0x0102]", "[a: 1, b: [0x01, 0x02] __binary_concat__]"], tuple: true, module_field: None },
-    Fam { key: "[1,0102]", ty: "['int, 'bin]", exprs: &["[1, 0x0102]", "[[0, 1] __integer_add__, [0x01, 0x02] __binary_concat__]", "[1 wd, 0x0102]"], tuple: true, module_field: None },
+    Fam { key: "[1,0102]", ty: "['int, 'bin]", exprs: &["[1, 0x0102]", "[[0, 1] __integer_add__, [0x01, 0x02] __binary_concat__]", "[1 wd, 0x0102]", "[[1, 0x0102], 3] fst"], tuple: true, module_field: None },
     Fam { key: "[P,5]", ty: "[P[x: 'int, y: 'bin], 'int]", exprs: &["[P[x: 1, y: 0x0102], 5]", "[P[x: [0, 1] __integer_add__, y: [0x01, 0x02] __binary_concat__], [2, 3] __integer_add__]", "[P[x: 1 wd, y: 0x0102], 5 wd]"], tuple: true, module_field: None },
     Fam { key: "Ok", ty: "Ok", exprs: &["Ok", "Ok"], tuple: true, module_field: None },
     // closures of one definition with equal / different captures, another definition, a capture-less function
@@ -49,7 +49,7 @@ const FAMS: &[Fam] = &[
     Fam { key: "fn:inc", ty: "(#'int -> 'int)", exprs: &["&inc", "&inc"], tuple: false, module_field: None },
 ];
 
-const FN_DEFS: &str = "mka = #'int { =k, #'int { [~, k] __integer_add__ } }, mkm = #'int { =k, #'int { [~, k] __integer_multiply__ } }, mkb = #'bin { =k, #'bin { [~, k] __binary_concat__ } }, inc = #'int { [~, 1] __integer_add__ }";
+const FN_DEFS: &str = "mka = #'int { =k, #'int { [~, k] __integer_add__ } }, mkm = #'int { =k, #'int { [~, k] __integer_multiply__ } }, mkb = #'bin { =k, #'bin { [~, k] __binary_concat__ } }, inc = #'int { [~, 1] __integer_add__ }, idg = #<'t>'t { ~ }, fst = #<'t>['t, 'int] { ~.0 }";
 
 /// More than 2^16 refs minted on one worker, next to refs minted on every other worker.
 fn mass_mint(rng: &mut Rng) -> Scenario {
@@ -153,7 +153,7 @@ impl Property for C13 {
                 tr = 1;
             }
             h.u64(tr);
-            if tr == 2 && eb.contains(" wd") {
+            if tr == 2 && (eb.contains(" wd") || eb.contains(" idg") || eb.contains(" fst")) {
                 // a union-typed field would not type-check against the comparer's declared message type
                 eb = b.exprs[0];
             }
